@@ -54,7 +54,8 @@ MEv0 == [name |-> "", ch |-> "", prio |-> 0, flags |-> 0, cancelled |-> FALSE, s
          firer |-> 0,          \* component whose fire() created the event (Value.manager)
          wH |-> 0,             \* waitingHandlers: suspended generator handlers (and their call/wait sub-tasks)
          promise |-> FALSE,    \* Value.promise: some handler returned a generator
-         alertdone |-> FALSE]  \* alert_done: a call()/wait() wants <name>_done
+         alertdone |-> FALSE,  \* alert_done: a call()/wait() wants <name>_done
+         viacall |-> FALSE]    \* fired inside callEvent: the harness holds no Value for it
 
 K0(G) == [g        |-> G,
           par      |-> [c \in 1..Len(G.chan) |-> c],
@@ -112,7 +113,7 @@ ProjLines(Kx) ==
 RECURSIVE ValueLines(_, _)
 ValueLines(Kx, e) ==
   IF e > Len(Kx.ev) THEN <<>>
-  ELSE IF Kx.ev[e].kind # 0 THEN ValueLines(Kx, e + 1)
+  ELSE IF Kx.ev[e].kind # 0 \/ Kx.ev[e].viacall THEN ValueLines(Kx, e + 1)
   ELSE LET res == Kx.ev[e].results IN
        [i \in 1..Len(res) |-> [Line("vitem") EXCEPT !.e = e, !.v = res[i]]]
        \o << [Line("vend") EXCEPT !.e = e, !.f = IF Kx.ev[e].errors THEN 1 ELSE 0, !.d = Len(res),
@@ -366,7 +367,8 @@ StartWait(Kx, w, root) ==
   IF W.iscall
   THEN LET e2 == Len(Kx.ev) + 1
            K1 == DoFire(Kx, W.comp, W.spec.name, W.spec.ch, W.spec.prio, W.spec.flags, 0, 0, 0, 0, 0, 0, FALSE)
-       IN [K1 EXCEPT !.gens[w].obj = e2, !.gens[w].ch = K1.ev[e2].ch, !.gens[w].armed = TRUE, !.refresh[root] = TRUE]
+       IN [K1 EXCEPT !.gens[w].obj = e2, !.gens[w].ch = K1.ev[e2].ch, !.gens[w].armed = TRUE, !.refresh[root] = TRUE,
+                     !.ev[e2].viacall = TRUE]
   ELSE [Kx EXCEPT !.gens[w].armed = TRUE, !.refresh[root] = TRUE]
 
 AddResult(Kx, e, v) == IF v # 0 THEN [Kx EXCEPT !.ev[e].results = Append(@, v)] ELSE Kx
@@ -402,7 +404,8 @@ ProcessTask(Kx, t) ==
           LET W  == Kx.gens[g]
               cg == W.caller
               K1 == [Kh EXCEPT !.tasks = @ \ {t}, !.gens[g].armed = FALSE, !.gens[g].dead = TRUE, !.refresh[root] = TRUE]
-              K2 == Emit(K1, << [Line("resume") EXCEPT !.e = W.e, !.h = W.h, !.x = W.wevent,
+              K2 == Emit(K1, << [Line("resume") EXCEPT !.e = W.e, !.h = W.h,
+                                                        !.x = IF W.obj = 0 THEN 0 ELSE W.wevent,   \* a wait by name does not know its event
                                                         !.v = ValId(K1.ev[W.wevent].results),
                                                         !.f = IF K1.ev[W.wevent].errors THEN 1 ELSE 0] >>)
               s  == StepGen(K2, cg)
